@@ -9,7 +9,7 @@ Onces == 1..3        \* once-flags of a scenario
 VARIABLES st,        \* [Thr -> {"none", "launched", "running", "ended"}]
           kind,      \* [Thr -> {"manual", "managed", ""}]
           tid,       \* [Thr -> Nat]  the OS-level thread the function ran on (-1 = not yet)
-          nreg, ncb, \* at-exit callbacks registered / already run
+          nreg, ncb, \* at-exit callbacks: how many were registered so far / the stack of those not yet run (top = last)
           joined,    \* [Thr -> BOOLEAN]  a manual join returned
           mainTid,
           once       \* [Onces -> {"no", "running", "done"}]  functions handed to aws_thread_call_once
@@ -28,7 +28,7 @@ JoinSlack == WFromNat(1000000000)
 
 TInit0 ==
     /\ st = [i \in Thr |-> "none"] /\ kind = [i \in Thr |-> ""] /\ tid = [i \in Thr |-> 0 - 1]
-    /\ nreg = [i \in Thr |-> 0] /\ ncb = [i \in Thr |-> 0] /\ joined = [i \in Thr |-> FALSE] /\ mainTid = 0
+    /\ nreg = [i \in Thr |-> 0] /\ ncb = [i \in Thr |-> <<>>] /\ joined = [i \in Thr |-> FALSE] /\ mainTid = 0
     /\ once = [n \in Onces |-> "no"]
 
 Launch(i, k) ==
@@ -44,9 +44,9 @@ FnRan(i, on, argok) ==
     /\ UNCHANGED <<kind, nreg, ncb, joined, mainTid, once>>
 
 AtExitReg(i, idx, rc) ==
-    /\ st[i] = "running" /\ rc = 0 /\ idx = nreg[i] + 1
-    /\ nreg' = [nreg EXCEPT ![i] = idx]
-    /\ UNCHANGED <<st, kind, tid, ncb, joined, mainTid, once>>
+    /\ st[i] \in {"running", "ended"} /\ rc = 0 /\ idx = nreg[i] + 1     \* (also from inside a callback that is being run)
+    /\ nreg' = [nreg EXCEPT ![i] = idx] /\ ncb' = [ncb EXCEPT ![i] = Append(@, idx)]
+    /\ UNCHANGED <<st, kind, tid, joined, mainTid, once>>
 
 FnEnd(i) ==
     /\ st[i] = "running" /\ st' = [st EXCEPT ![i] = "ended"]
@@ -55,11 +55,11 @@ FnEnd(i) ==
 (* callbacks: after the function, on that thread, once each, in reverse order of registration *)
 AtExit(i, idx, on) ==
     /\ st[i] = "ended" /\ on = tid[i]
-    /\ idx = nreg[i] - ncb[i] /\ idx >= 1
-    /\ ncb' = [ncb EXCEPT ![i] = @ + 1]
+    /\ ncb[i] # <<>> /\ idx = ncb[i][Len(ncb[i])]                       \* the one registered last among those not yet run
+    /\ ncb' = [ncb EXCEPT ![i] = SubSeq(@, 1, Len(@) - 1)]
     /\ UNCHANGED <<st, kind, tid, nreg, joined, mainTid, once>>
 
-Finished(i) == st[i] = "ended" /\ ncb[i] = nreg[i]
+Finished(i) == st[i] = "ended" /\ ncb[i] = <<>>
 
 (* aws_thread_call_once: the function runs exactly once per flag, with the argument of the call that ran it; no call *)
 (* on that flag returns before the function has completed (callers that arrive meanwhile wait)                      *)
